@@ -353,6 +353,16 @@ type zoneFn struct {
 	rpoIdx     map[*ssa.BasicBlock]int
 	in         map[*ssa.BasicBlock]*zstate
 	blockFacts map[*ssa.BasicBlock]FactSet
+	sub        map[ssa.Value]ssa.Value // callee value -> caller value, while facts of a helper are being applied
+	subDepth   int
+	caseSel    map[*ssa.Call]int // helper call -> selected return case (case analysis); absent = join of all cases
+	summaries  map[*ssa.Function][]retCase
+}
+
+// retCase is one way an integer helper can return: the value and the facts that hold at that return.
+type retCase struct {
+	val   ssa.Value
+	facts FactSet
 }
 
 type memKey struct {
@@ -434,6 +444,9 @@ func seqRoot(x ssa.Value) ssa.Value {
 // lenTerm returns the term for len(x): (variable, offset).
 func (z *zoneFn) lenTerm(x ssa.Value) (int, int64, bool) {
 	x = seqRoot(x)
+	if a, ok := z.sub[x]; ok {
+		x = seqRoot(a)
+	}
 	if c, ok := x.(*ssa.Const); ok {
 		if c.Value != nil && c.Value.Kind() == constant.String {
 			return 0, int64(len(constant.StringVal(c.Value))), true
@@ -466,6 +479,9 @@ func (z *zoneFn) lenTerm(x ssa.Value) (int, int64, bool) {
 
 // lin normalises an integer value to (variable, offset).
 func (z *zoneFn) lin(v ssa.Value) (int, int64, bool) {
+	if a, ok := z.sub[v]; ok {
+		v = a
+	}
 	switch x := v.(type) {
 	case *ssa.Const:
 		if b, ok := ConstBool(x); ok {
@@ -688,7 +704,29 @@ func (z *zoneFn) applyCond(s *zstate, cond ssa.Value, val bool) {
 		}
 	case *ssa.Call:
 		cal := Callee(c)
-		if cal == nil || cal.Pkg == nil || !val {
+		if cal == nil || cal.Pkg == nil {
+			return
+		}
+		if InModule(cal) && cal.Blocks != nil && z.subDepth < 3 {
+			// a boolean helper of the module: the facts its result implies, over the caller's values
+			if fs, sub := z.p.CalleeFacts(c, val); len(fs) > 0 {
+				outer := z.sub
+				if outer != nil {
+					for k, a := range sub {
+						if aa, ok := outer[a]; ok {
+							sub[k] = aa
+						}
+					}
+				}
+				z.sub = sub
+				z.subDepth++
+				z.applyFacts(s, fs)
+				z.subDepth--
+				z.sub = outer
+			}
+			return
+		}
+		if !val {
 			return
 		}
 		pk := cal.Pkg.Pkg.Path()
@@ -837,6 +875,9 @@ func (z *zoneFn) transfer(s *zstate, in ssa.Instruction, sites *[]BoundSite) {
 			}
 		}
 	case *ssa.Call:
+		if z.applySummary(s, x) {
+			return
+		}
 		if b, ok := x.Call.Value.(*ssa.Builtin); ok {
 			switch b.Name() {
 			case "copy":
@@ -994,6 +1035,66 @@ func (z *zoneFn) transfer(s *zstate, in ssa.Instruction, sites *[]BoundSite) {
 			}
 		}
 	}
+}
+
+// summaryOf: the return cases of a small integer-valued helper of the module (nil when not applicable).
+func (z *zoneFn) summaryOf(h *ssa.Function) []retCase {
+	if cs, ok := z.summaries[h]; ok {
+		return cs
+	}
+	var cs []retCase
+	if h != nil && InModule(h) && h.Blocks != nil && h != z.fn && h.Signature.Results().Len() == 1 && isSignedInt(h.Signature.Results().At(0).Type()) && len(h.Blocks) <= 12 {
+		for _, ret := range ReturnsOf(h) {
+			cs = append(cs, retCase{val: RetVals(ret)[0], facts: z.p.FactsAt(ret)})
+		}
+		if len(cs) > 6 {
+			cs = nil
+		}
+	}
+	if z.summaries == nil {
+		z.summaries = map[*ssa.Function][]retCase{}
+	}
+	z.summaries[h] = cs
+	return cs
+}
+
+// applySummary handles v = h(args) for an integer helper h by cases: for every way h can return, the facts at that
+// return (over the caller's arguments) and v == the returned value; the results are joined, or a single case is
+// taken when a case analysis selected one.
+func (z *zoneFn) applySummary(s *zstate, x *ssa.Call) bool {
+	vi, own := z.isOwnVar(x)
+	if !own || z.sub != nil {
+		return false
+	}
+	h := Callee(x)
+	cs := z.summaryOf(h)
+	if len(cs) == 0 {
+		return false
+	}
+	sub := map[ssa.Value]ssa.Value{}
+	for i, prm := range h.Params {
+		if i < len(x.Call.Args) {
+			sub[prm] = x.Call.Args[i]
+		}
+	}
+	sel, hasSel := z.caseSel[x]
+	acc := &zstate{n: s.n}
+	for k, c := range cs {
+		if hasSel && k != sel {
+			continue
+		}
+		t := s.clone()
+		z.sub = sub
+		z.applyFacts(t, c.facts)
+		if j, kj, ok := z.lin(c.val); ok && !t.bottom() {
+			t.le(vi, 0, j, kj, 0)
+			t.le(j, kj, vi, 0, 0)
+		}
+		z.sub = nil
+		acc = zjoin(acc, t)
+	}
+	s.m, s.neq = acc.m, acc.neq
+	return true
 }
 
 func (z *zoneFn) indexSite(s *zstate, in ssa.Instruction, seq, idx ssa.Value, sites *[]BoundSite) {
@@ -1302,6 +1403,51 @@ func (p *Prog) ZoneAnalyze(fn *ssa.Function) *ZoneResult {
 				site.Proved = true
 				site.Missing = ""
 				site.Partitioned = true
+			}
+		}
+		// case analysis over the ways a dominating integer helper call can return
+		for m := sb; m != nil && !site.Proved; m = m.Idom() {
+			for ii := len(m.Instrs) - 1; ii >= 0 && !site.Proved; ii-- {
+				call, ok := m.Instrs[ii].(*ssa.Call)
+				if !ok || (m == sb && !Dominates(call, site.Instr)) {
+					continue
+				}
+				if _, own := z.isOwnVar(call); !own {
+					continue
+				}
+				cs := z.summaryOf(Callee(call))
+				if len(cs) < 2 {
+					continue
+				}
+				var region []*ssa.BasicBlock
+				for _, b := range z.rpo {
+					if m.Dominates(b) {
+						region = append(region, b)
+					}
+				}
+				all := true
+				for k := range cs {
+					z.caseSel = map[*ssa.Call]int{call: k}
+					lins, _, _ := z.solve(region, map[*ssa.BasicBlock]*zstate{m: ins[m]})
+					var ls []BoundSite
+					z.flow(sb, lins[sb], &ls, nil)
+					ok := false
+					for _, l := range ls {
+						if l.Instr == site.Instr && l.Proved {
+							ok = true
+						}
+					}
+					z.caseSel = nil
+					if !ok {
+						all = false
+						break
+					}
+				}
+				if all {
+					site.Proved = true
+					site.Missing = ""
+					site.Partitioned = true
+				}
 			}
 		}
 	}
